@@ -62,7 +62,8 @@ def run(tier, replay=None):
                     v.violation("%s: %s [%s]" % (what, e.get("panic", "")[:200], json.dumps({k: e[k] for k in e if k not in ("state",)})[:400]),
                                 {"clause": what, "call": e.get("call"), "kind": e.get("kind")}, replay=path)
     need = ["CheckTx/decode", "DeliverTx/decode", "DeliverTx/lookup", "DeliverTx/signature", "DeliverTx/common1", "DeliverTx/controller",
-            "DeliverTx/executed", "Query/vm_call", "Query/account"]
+            "DeliverTx/executed", "Query/vm_call", "Query/account",
+            "Sweep/opcode-init", "Sweep/opcode-call", "Sweep/opcode-transfer"]
     missing = [k for k in need if not by_layer.get(k)]
     if missing and not v.violations:
         raise vlib.MachineryError("hostile driver never reached %s" % missing)
